@@ -5,27 +5,27 @@
 // read the values of a replay file so that a solver model can be re-run against the real build.
 package v
 
-func U8(name string) uint8              { return 0 }
-func U16(name string) uint16            { return 0 }
-func U32(name string) uint32            { return 0 }
-func U64(name string) uint64            { return 0 }
-func I64(name string) int64             { return 0 }
-func I32(name string) int32             { return 0 }
-func Int(name string) int               { return 0 }
-func Bool(name string) bool             { return false }
-func Bytes(name string, n int) []byte   { return nil }
-func String(name string, n int) string  { return "" }
-func Choose(name string, k int) int     { return 0 }
-func Assume(c bool)                     {}
-func Assert(c bool, msg string)         {}
-func Cover(label string)                {}
-func Observe(name string, val any)      {}
-func Symbolic() bool                    { return true }
-func Param(name string, def int) int    { return def }
-func Goroutines() int                   { return 0 }
-func Yield()                            {}
-func AllocLimit(n int)                  {}
-func SameBacking(a, b []byte) bool      { return false }
+func U8(name string) uint8             { return 0 }
+func U16(name string) uint16           { return 0 }
+func U32(name string) uint32           { return 0 }
+func U64(name string) uint64           { return 0 }
+func I64(name string) int64            { return 0 }
+func I32(name string) int32            { return 0 }
+func Int(name string) int              { return 0 }
+func Bool(name string) bool            { return false }
+func Bytes(name string, n int) []byte  { return nil }
+func String(name string, n int) string { return "" }
+func Choose(name string, k int) int    { return 0 }
+func Assume(c bool)                    {}
+func Assert(c bool, msg string)        {}
+func Cover(label string)               {}
+func Observe(name string, val any)     {}
+func Symbolic() bool                   { return true }
+func Param(name string, def int) int   { return def }
+func Goroutines() int                  { return 0 }
+func Yield()                           {}
+func AllocLimit(n int)                 {}
+func SameBacking(a, b []byte) bool     { return false }
 
 // Overlaps: the two byte regions share at least one byte of one array.
 func Overlaps(a, b []byte) bool { return false }
@@ -36,3 +36,8 @@ func Follows(a, b []byte) bool { return false }
 
 // SameStart: a and b start at the same byte of the same array (both non-nil).
 func SameStart(a, b []byte) bool { return false }
+
+// And / Or / Not / Implies evaluate eagerly: unlike && and || they do not fork the exploration.
+func And(c ...bool) bool     { return false }
+func Or(c ...bool) bool      { return false }
+func Implies(a, b bool) bool { return false }
